@@ -1176,6 +1176,9 @@ def name_to_class_map(name):
         "classical x": ClassicalCNOT,
         "classical z": ClassicalCZ,
         "classical reset x": MeasurementCNOTandReset,
+        "measurement-controlled x and reset": MeasurementCNOTandReset,
+        "id": Identity,
+        "measure z": MeasurementZ,
     }
     if name in mapping:
         return mapping[name]
@@ -1197,6 +1200,9 @@ def class_to_name_mapping(class_op):
         SigmaZ: "z",
         Hadamard: "h",
         Phase: "s",
+        PhaseDagger: "sdg",
+        Identity: "id",
+        MeasurementZ: "measure z",
         CZ: "cz",
         ClassicalCNOT: "classical x",
         ClassicalCZ: "classical z",
